@@ -716,6 +716,39 @@ fn matrix_sets(mode: Mode) -> (Vec<(Vec<Vec<f64>>, &'static str)>, Vec<(Vec<Vec<
         let m: Vec<Vec<f64>> = (0..3).map(|i| (0..3).map(|j| if i == j { dv[p[i]] } else if (i + j) % 2 == 0 { -t } else { t }).collect()).collect();
         eig.push((m, "tiny-offdiagonal"));
     }
+    // graded matrices: O(1) diagonal entries of either sign, tiny (2^-30) but non-zero entries below
+    // the diagonal, O(1) entries above it, in several row orders: the pivot search must compare
+    // MAGNITUDES - taking a tiny entry as pivot is not wrong in exact arithmetic but loses nine digits
+    for n in 2..=4usize {
+        for pat in 0..(1usize << n) {
+            let base: Vec<Vec<f64>> = (0..n)
+                .map(|i| {
+                    (0..n)
+                        .map(|j| {
+                            if i == j {
+                                (if (pat >> i) & 1 == 1 { -1.0 } else { 1.0 }) * (2.0 + 0.5 * i as f64)
+                            } else if i < j {
+                                0.5 * ((i + 2 * j) % 3) as f64 - 0.25
+                            } else {
+                                2f64.powi(-30) * (1 + (i + j) % 2) as f64 * if (i * j) % 2 == 0 { 1.0 } else { -1.0 }
+                            }
+                        })
+                        .collect()
+                })
+                .collect();
+            if cond(&base) > 50.0 {
+                continue;
+            }
+            let perms = permutations(n);
+            let pstep = if mode == Mode::Quick { (perms.len() / 3).max(1) } else { 1 };
+            for (k, p) in perms.iter().enumerate() {
+                if k % pstep != 0 {
+                    continue;
+                }
+                mats.push(((0..n).map(|i| base[p[i]].clone()).collect(), "graded"));
+            }
+        }
+    }
     // the same matrices scaled by powers of two (real and derivative parts): conditioning, and
     // therefore singularity, does not depend on the magnitude of the entries
     let mut scaled: Vec<(Vec<Vec<f64>>, &'static str)> = Vec::new();
